@@ -88,6 +88,7 @@ type concProgram struct {
 	sentinel    [2]*cHook
 	finalTrig   [2]*cTrig
 	slowG       int
+	burst       bool
 }
 
 func (p *concProgram) String() string {
@@ -154,7 +155,13 @@ func drawConcProgram(t *rapid.T) *concProgram {
 	for ev := 0; ev < 2; ev++ {
 		p.sentinel[ev] = newHook(&cHook{ev: ev, pool: poolForced, pre: true, sentinel: true})
 	}
+	// burst programs: many goroutines hammer E0 back to back, with small trigger-count limits on the event and on a
+	// pre-attached hook and little else going on - the shape in which a miscounted (e.g. non-atomic) trigger counter shows
+	p.burst = rapid.IntRange(0, 5).Draw(t, "burst") == 0
 	nPre := rapid.IntRange(0, 4).Draw(t, "nPre")
+	if p.burst {
+		nPre = 0
+	}
 	var pre []*cHook
 	for i := 0; i < nPre; i++ {
 		h := newHook(drawHookSpec(t, 0, true))
@@ -162,13 +169,26 @@ func drawConcProgram(t *rapid.T) *concProgram {
 		pre = append(pre, h)
 	}
 	nT := rapid.IntRange(1, 4).Draw(t, "trigGoroutines")
+	if p.burst {
+		nT = rapid.IntRange(4, 8).Draw(t, "burstGoroutines")
+		p.e0max = rapid.SampledFrom([]int{0, 6, 12, 24, 48}).Draw(t, "burstE0max")
+		h := newHook(&cHook{ev: 0, pool: poolUnset, max: rapid.SampledFrom([]int{3, 6, 12, 24, 48}).Draw(t, "burstHookMax")})
+		h.pre = true
+		pre = append(pre, h)
+	}
 	for g := 0; g < nT; g++ {
 		n := rapid.IntRange(1, 4).Draw(t, "nTriggers")
+		if p.burst {
+			n = rapid.IntRange(6, 12).Draw(t, "nBurstTriggers")
+		}
 		var l []*cTrig
 		for i := 0; i < n; i++ {
-			tr := &cTrig{id: len(p.trigs) + 1, yields: rapid.IntRange(0, 3).Draw(t, "yields")}
-			if rapid.IntRange(0, 3).Draw(t, "onE1") == 0 {
-				tr.ev = 1
+			tr := &cTrig{id: len(p.trigs) + 1}
+			if !p.burst {
+				tr.yields = rapid.IntRange(0, 3).Draw(t, "yields")
+				if rapid.IntRange(0, 3).Draw(t, "onE1") == 0 {
+					tr.ev = 1
+				}
 			}
 			p.trigs = append(p.trigs, tr)
 			l = append(l, tr)
@@ -646,6 +666,7 @@ func runEventConcurrent(t *rapid.T) {
 	add(ty.hookMaxBounded > 0, "hook_max_bounded")
 	add(ty.suppressed > 0, "event_max_suppressed_a_trigger")
 	add(p.epool[0] == poolShared || p.epool[1] == poolShared, "event_level_pool")
+	add(p.burst, "burst")
 	stats.NoteAdd(concCheck, "pairs_must", int64(ty.must))
 	stats.NoteAdd(concCheck, "pairs_mustnot", int64(ty.mustNot))
 	stats.NoteAdd(concCheck, "pairs_racing", int64(ty.racing))
@@ -661,6 +682,6 @@ func runEventConcurrent(t *rapid.T) {
 }
 
 func TestEventConcurrent(t *testing.T) {
-	stats.Rule(concCheck, "rapid draws a program: 2 target events (arity 1/2, E0 optionally max-limited, optional event-level pool), a linked event, 0-4 pre-attached hooks, 1-4 trigger goroutines x 1-4 triggers, 0-3 hook/unhook goroutines x 1-5 ops, 0-2 LinkTo goroutines x 1-4 ops, Gosched counts; the schedule is the Go scheduler's; history judged with logical-clock stamps; distinct by program text; non-trivial = >=2 goroutines, at least one (hook,trigger) pair that must be called and at least one racing pair (hook or link)")
+	stats.Rule(concCheck, "rapid draws a program: 2 target events (arity 1/2, E0 optionally max-limited, optional event-level pool), a linked event, 0-4 pre-attached hooks, 1-4 trigger goroutines x 1-4 triggers (every sixth program: a burst of 4-8 goroutines x 6-12 back-to-back triggers of E0 with small event and hook limits), 0-3 hook/unhook goroutines x 1-5 ops, 0-2 LinkTo goroutines x 1-4 ops, Gosched counts; the schedule is the Go scheduler's; history judged with logical-clock stamps; distinct by program text; non-trivial = >=2 goroutines, at least one (hook,trigger) pair that must be called and at least one racing pair (hook or link)")
 	rapid.Check(t, runEventConcurrent)
 }
